@@ -621,6 +621,16 @@ def check_block(blk, b, h=1e-4):
                 if not np.all(np.isfinite(fd)):
                     continue
                 if np.abs(fd - col).max() > 2e-5 * scale:
+                    # near a pole of the program (e.g. 1 / log x at x close to 1) the central difference itself is off by O(h^2 f'''): a discrepancy that shrinks like h^2 when the
+                    # step is divided by 8 is the reference's truncation error, not an error of the Jacobian
+                    h8 = h / 8
+                    try:
+                        up8, dn8 = blk.impulse_nonlinear(ss, {f'x{i}': dx / 8}), blk.impulse_nonlinear(ss, {f'x{i}': -dx / 8})
+                        fd8 = (np.asarray(up8[f'y{j}']) - np.asarray(dn8[f'y{j}']))[:T] / (2 * h8)
+                        if np.all(np.isfinite(fd8)) and np.abs(fd8 - col).max() <= max(2e-5 * scale, np.abs(fd - col).max() / 16):
+                            continue
+                    except (ValueError, ZeroDivisionError):
+                        pass
                     t = int(np.argmax(np.abs(fd - col)))
                     return dict(what='Jacobian differs from the derivative of the block\'s own nonlinear time-path map', input=dict(inp, output=j, inp_var=i, s=s, t=t),
                                 observed=float(col[t]), expected=float(fd[t]),
